@@ -106,6 +106,14 @@ def jobs(tier, seed):
         if kind == 'WFQ':
             cfg['float_inexact'] = True
         js.append({'harness': 'wc', 'cfg': cfg, 'weight': 60, 'opts': {'max_paths': 20000}})
+    # zero-length packets are packets (sizes drawn as int(expovariate) can be 0): seven of them in one burst, six of one flow -
+    # equal stamps must not cost the per-flow order
+    for kind in KINDS:
+        cfg = {'kind': kind, 'rate': 8, 'table': TABLES[kind], 'flows': [0, 0, 1, 0, 0, 0, 0], 'sorts': 'int', 'burst': [0] + [1] * 6,
+               'smin': 0, 'smax': 1}
+        if kind == 'WFQ':
+            cfg['float_inexact'] = True
+        js.append({'harness': 'wc', 'cfg': cfg, 'weight': 40, 'opts': {'max_paths': 4000}})
     # two instances of one scheduler class in one environment (they share nothing)
     for kind in KINDS:
         cfg = {'kind': kind, 'rate': 8, 'table': TABLES[kind], 'flows': [0, 1, 0, 1], 'sorts': 'int', 'twin': True,
